@@ -12,6 +12,8 @@ pub const FLOAT_CLASSES: &[&str] = &[
 pub const STR_CLASSES: &[&str] = &[
     "empty", "short_lowcard", "short_highcard", "len254", "len255", "len256", "len511", "unicode", "lhex_long", "uhex_long",
     "lhex_short", "hex_odd", "hex_mixedcase", "numerals", "dict_gt255", "with_empty", "single_value",
+    // high-cardinality (packed, not dictionary) strings whose byte length sits on the length-prefix boundaries
+    "len254_hi", "len255_hi", "len510_hi", "len_mixed_boundaries",
 ];
 pub const NULL_PATTERNS: &[&str] = &["none", "all", "first", "last", "alternating", "p10", "p50", "p90", "all_but_first", "all_but_last"];
 pub const LENGTHS: &[usize] = &[1, 2, 7, 8, 9, 15, 16, 17, 63, 64, 65, 127, 128, 129, 1000];
@@ -185,6 +187,14 @@ pub fn gen_strs(class: &str, n: usize, rng: &mut Rng) -> Vec<String> {
             "len255" => format!("{}{}", i % 7, "y".repeat(254)),
             "len256" => format!("{}{}", i, "z".repeat(256 - i.to_string().len())),
             "len511" => format!("{}{}", i % 3, "w".repeat(510)),
+            "len254_hi" => format!("{:05}{}", i, "a".repeat(249)),
+            "len255_hi" => format!("{:05}{}", i, "b".repeat(250)),
+            "len510_hi" => format!("{:05}{}", i, "c".repeat(505)),
+            "len_mixed_boundaries" => {
+                let l = *rng.pick(&[0usize, 1, 253, 254, 255, 256, 509, 510, 511, 765]);
+                let p = format!("{:04}", i);
+                if l <= p.len() { p[..l].to_string() } else { format!("{}{}", p, "d".repeat(l - p.len())) }
+            }
             "unicode" => format!("{}{}{}", rng.pick(&uni), rng.pick(&uni), if rng.chance(0.5) { i.to_string() } else { String::new() }),
             "lhex_long" => { let l = 2 * (3 + rng.below(6)); rand_hex(rng, l, false) }
             "uhex_long" => { let l = 2 * (3 + rng.below(6)); rand_hex(rng, l, true) }
